@@ -4,7 +4,9 @@ import (
 	"fmt"
 	"go/token"
 	"go/types"
+	"regexp"
 	"sort"
+	"strconv"
 	"strings"
 	"sync"
 
@@ -115,6 +117,13 @@ type dryInfo struct {
 	keys map[string]bool
 	loop *loopInfo
 	fr   *ssa.Function
+	// finer than keys: for a component written only by stores to single rows (one object's field, one
+	// map's entries, one array's elements), the objects written; whole[key] when some write was not of
+	// that form. start is the fresh-name counter when the dry run began.
+	rows  map[string][]Term
+	whole map[string]bool
+	sorts map[string]string
+	start int
 }
 
 // Ctx is the per-function verification context.
@@ -321,7 +330,72 @@ func (st *State) setHeap(key string, val Term) {
 	st.heap[key] = name
 	if st.dry != nil {
 		st.dry.keys[key] = true
+		st.dry.whole[key] = true
 	}
+}
+
+// setHeapRow is setHeap for a value of the form Store(h, ref, row): only the row of object ref changes.
+func (st *State) setHeapRow(key string, ref Term, val Term) {
+	name := st.ctx.freshConst(key+"@", val.Sort)
+	st.assume(Eq(name, val))
+	st.heap[key] = name
+	if st.dry != nil {
+		st.dry.keys[key] = true
+		st.dry.rows[key] = append(st.dry.rows[key], ref)
+		st.dry.sorts[key] = val.Sort
+	}
+}
+
+var reFreshNum = regexp.MustCompile(`!(\d+)`)
+
+// loopInvariantRef: the reference is the same in every iteration - it mentions no heap component
+// (no select at all), no value made up during the dry run and nothing created after the loop was entered.
+func loopInvariantRef(ref Term, start int) bool {
+	if strings.Contains(ref.S, "select") || strings.Contains(ref.S, "dry!") || strings.Contains(ref.S, "ite") {
+		return false
+	}
+	for _, m := range reFreshNum.FindAllStringSubmatch(ref.S, -1) {
+		n, _ := strconv.Atoi(m[1])
+		if n > start {
+			return false
+		}
+	}
+	return true
+}
+
+// havocRows: after a loop whose body writes component key only in the rows of the given objects (the same
+// objects in every iteration), those rows are arbitrary and every other object's row is unchanged.
+func (st *State) havocRows(key string, refs []Term, sort string) {
+	cur, ok := st.heap[key]
+	if !ok && strings.HasPrefix(sort, "(Array Int ") {
+		// not read or written yet on this path: its entry version is the one the loop starts from
+		inner := strings.TrimSuffix(strings.TrimPrefix(sort, "(Array Int "), ")")
+		if strings.HasPrefix(inner, "(Array Int ") {
+			cur = st.heapTerm(key, strings.TrimSuffix(strings.TrimPrefix(inner, "(Array Int "), ")"), true)
+		} else {
+			cur = st.heapTerm(key, inner, false)
+		}
+		ok = cur.Sort == sort
+	}
+	if !ok || !strings.HasPrefix(cur.Sort, "(Array Int ") {
+		st.havocKey(key)
+		return
+	}
+	rowSort := strings.TrimSuffix(strings.TrimPrefix(cur.Sort, "(Array Int "), ")")
+	val := cur
+	seen := map[string]bool{}
+	for _, r := range refs {
+		if seen[r.S] {
+			continue
+		}
+		seen[r.S] = true
+		val = Store(val, r, st.ctx.freshConst("hv!row", rowSort))
+	}
+	nv := st.ctx.freshConst(key+"@h", cur.Sort)
+	st.assume(Eq(nv, val))
+	st.heap[key] = nv
+	st.tainted[key] = true
+	st.baseVer[key] = baseInfo{ver: nv, bound: st.frontierTerm()}
 }
 
 func (st *State) havocKey(key string) {
@@ -515,7 +589,7 @@ func (st *State) storePtr(p *PtrInfo, v Val) {
 			l := ls[off+i]
 			key := heapKey(root, l.Path)
 			h := st.heapTerm(key, l.Sort, false)
-			st.setHeap(key, Store(h, p.Ref, v.L[i]))
+			st.setHeapRow(key, p.Ref, Store(h, p.Ref, v.L[i]))
 		}
 	case pkElem:
 		ls := leavesOf(root)
@@ -523,7 +597,7 @@ func (st *State) storePtr(p *PtrInfo, v Val) {
 			l := ls[off+i]
 			key := elemKey(root, l.Path)
 			h := st.heapTerm(key, l.Sort, true)
-			st.setHeap(key, Store(h, p.Ref, Store(Select(h, p.Ref), p.Idx, v.L[i])))
+			st.setHeapRow(key, p.Ref, Store(h, p.Ref, Store(Select(h, p.Ref), p.Idx, v.L[i])))
 		}
 	}
 }
